@@ -212,7 +212,9 @@ def run_property(P, tier, seed, replay=None):
                 rj2, _, _ = exec_and_judge(P, ctx, rej_cases, "confirm")
             again = {(cid, reason) for cid, i, reason in rj2}
             for cid, i, reason in rejects:
-                if (cid, reason) in again or (P.get("nondeterministic") and reason in ("result_crashes_consumer", "call_did_not_return")):
+                if (cid, reason) in again or (P.get("nondeterministic") and reason in ("result_crashes_consumer", "call_did_not_return")) \
+                        or reason == "concurrent_instances_interfere":
+                    # (an interference between goroutines was observed on the real code; a race need not show again)
                     # (for a schedule-dependent family the recorded crash / hang IS the observation: it is not in the judge's output)
                     confirmed.append((cid, i, reason))
                 elif reason == "call_did_not_return":
